@@ -21,7 +21,9 @@ def strip_comments(src):
 
 def statements(path):
     src = strip_comments(open(path).read())
-    res = {}
+    # the whole file too: a notation or definition slipped in before a theorem can change what its
+    # (textually unchanged) statement means
+    res = {"__file__": hashlib.sha256(" ".join(src.split()).encode()).hexdigest()[:16]}
     for m in re.finditer(r"^\s*Theorem\s+(\w+)\s*:(.*?)\.\s*Proof\.", src, re.M | re.S):
         stmt = " ".join(m.group(2).split())
         res[m.group(1)] = hashlib.sha256(stmt.encode()).hexdigest()[:16]
